@@ -63,6 +63,18 @@ def make_jobs(chk):
             jobs.append(SessionJob("x%dd" % n, bytes([op]), stack, fl, sv, z=False, cmds=["steps"], cmp=drivers.CMP_C01))
             jobs.append(SessionJob("x%du" % n, bytes([0x00, 0x63, op, 0x68]), stack, fl, sv, z=True, cmds=["steps"], cmp=drivers.CMP_C01))
             jobs.append(SessionJob("x%dv" % n, bytes([0x00, 0x63, op, 0x68]), stack, fl, sv, z=False, cmds=["steps"], cmp=drivers.CMP_C01))
+    # WITHOUT the option: each of the fifteen fails as a disabled opcode, executed or inside a branch that is not taken, in every script version
+    # (in tapscript these bytes are OP_SUCCESSx: what the tool does there is the recorded finding C01-opsuccess and is held to its model)
+    O_ = G.OP
+    for opn in ("CAT", "SUBSTR", "LEFT", "RIGHT", "INVERT", "AND", "OR", "XOR", "2MUL", "2DIV", "MUL", "DIV", "MOD", "LSHIFT", "RSHIFT"):
+        for sv in ("BASE", "WITNESS_V0", "TAPSCRIPT"):
+            jobs.append(SessionJob("nz:%s:%s:exec" % (opn, sv), bytes([O_[opn]]), [b"\x06", b"\x03", b"\x01"], [], sv, z=False, cmds=["steps"], cmp=drivers.CMP_C01))
+            jobs.append(SessionJob("nz:%s:%s:untaken" % (opn, sv), bytes([0x00, O_["IF"], O_[opn], O_["ENDIF"], O_["1"]]), [], [], sv, z=False, cmds=["steps"], cmp=drivers.CMP_C01))
+    # shift counts over the whole permitted range 0..63 (and just outside), small and large operands
+    for cnt in list(range(0, 66)) + [-1]:
+        for a in (1, -1, 3, -255, 127, 2**31 - 1, 2**39 - 1):
+            for opn in ("LSHIFT", "RSHIFT"):
+                jobs.append(SessionJob("sh:%s:%d:%d" % (opn, cnt, a), bytes([O_[opn]]), [G.scriptnum(a), G.scriptnum(cnt)], [], "BASE", z=True, cmds=["steps"], cmp=drivers.CMP_C01))
     # longer programs mixing the re-enabled opcodes with the ordinary ones
     rng = chk.rng
     for i in range(150 if quick else 20000):
